@@ -84,6 +84,10 @@ def check(model: Model, run: Run) -> None:
                          "the stream-level reader is used for something other than validated reads (skip_value/get_remaining_data advance without checking that the bytes are there)", ""))
     lemma_no_consume_on_failure(model, run, "C06")
     lemma_identity_before_completeness(model, run)
+    # "returned as a message or a protocol error is raised": nothing else may leave receive
+    from ..sessrules import extraction
+    from .c05 import escape_set_rule
+    escape_set_rule(model, run, extraction(model), mr, "Q5-message-or-protocol-error")
     # any other handler on the receive path that swallows NotEnougData must obey the same provenance rule
     for fq, f2 in list(model.functions.items()):
         if f2 is fi or any(r.fi is f2 for r in region) or isinstance(f2.node, ast.Lambda) or (fq, None) not in mr.summ:
